@@ -84,6 +84,31 @@ def systematic():
                 leaks.append(dict(where, what="ancestor changed by a call on its descendant", step="c = a.%s(args2)" % name))
             if b is not None and B.observe(b) != snap_b:
                 leaks.append(dict(where, what="sibling changed by a call on the other branch", step="c = a.%s(args2)" % name))
+    # explicitly aliased row sources of every kind as arguments: the call may not touch them (nor the receiver, nor statements built around them)
+    for cls, name in B.discover():
+        for ri, rf in enumerate(B.receivers(cls, name) or []):
+            try:
+                variants = B.extra_args(cls, name, rf())
+            except Exception:
+                variants = []
+            for vi in range(len(variants)):
+                r = rf()
+                f, objs = B.extra_args(cls, name, r)[vi]
+                around = [B.P.Query.from_(o).select("*") for o in objs if hasattr(o, "get_sql")]       # statements built earlier around the arguments
+                snaps = [(o, B.observe(o), o.__dict__.get("alias")) for o in objs] + [(o, B.observe(o), None) for o in around]
+                snap_r = B.observe(r)
+                try:
+                    f(r)
+                except Exception:
+                    pass
+                n += 1
+                where = {"class": cls.__name__, "method": name, "receiver": ri, "argument_variant": vi}
+                if B.observe(r) != snap_r:
+                    leaks.append(dict(where, what="receiver changed by the call"))
+                for o, s_, al in snaps:
+                    if B.observe(o) != s_ or o.__dict__.get("alias") != (al if al is not None else o.__dict__.get("alias")):
+                        leaks.append(dict(where, what="an explicitly aliased argument (or a statement built earlier around it) changed"))
+                        break
     # independence of continuations: what r.m(x) is does not depend on which sibling continuations of r were made before it
     for cls, name in B.discover():
         for ri, rf in enumerate(B.receivers(cls, name) or []):
